@@ -400,17 +400,44 @@ impl FileSpec {
             .filter(|path| {
                 // infix filter must pass
                 let stem = path.file_stem().unwrap(/* CANNOT FAIL*/).to_string_lossy();
-                let infix_start = if fixed_name_part.is_empty() {
-                    0
-                } else {
-                    fixed_name_part.len() + 1 // underscore at the end
+                // the stem of a compressed file still ends with the suffix of the log files
+                let stem: &str = match (o_suffix, self.o_suffix.as_deref()) {
+                    (Some("gz"), Some(sfx)) if sfx != "gz" => {
+                        match stem.strip_suffix(sfx).and_then(|s| s.strip_suffix('.')) {
+                            Some(s) => s,
+                            None => return false,
+                        }
+                    }
+                    _ => &stem,
                 };
-                if stem.len() <= infix_start {
+                // the fixed name part must be followed by an underscore and the infix
+                let rest = if fixed_name_part.is_empty() {
+                    stem
+                } else {
+                    match stem
+                        .strip_prefix(fixed_name_part.as_str())
+                        .and_then(|s| s.strip_prefix('_'))
+                    {
+                        Some(s) => s,
+                        None => return false,
+                    }
+                };
+                if rest.is_empty() {
                     return false;
                 }
-                let maybe_infix = &stem[infix_start..];
-                let end = maybe_infix.find('.').unwrap_or(maybe_infix.len());
-                infix_filter.filter_infix(&maybe_infix[..end])
+                // the infix ends at the first dot and can only be followed by a restart counter
+                let (maybe_infix, o_tail) = match rest.split_once('.') {
+                    Some((infix, tail)) => (infix, Some(tail)),
+                    None => (rest, None),
+                };
+                if let Some(tail) = o_tail {
+                    match tail.strip_prefix("restart-") {
+                        Some(digits)
+                            if digits.len() >= 4 && digits.bytes().all(|b| b.is_ascii_digit()) => {}
+                        _ => return false,
+                    }
+                }
+                infix_filter.filter_infix(maybe_infix)
             })
             .map(PathBuf::clone)
             .collect::<Vec<PathBuf>>()
